@@ -244,6 +244,24 @@ func c08ValidFor(r *rand.Rand, fam int, E reflect.Type) string {
 		return l[r.Intn(len(l))]
 	case famTime:
 		return c08TimeCanon(c08RandTime(r)) // used for initial values only
+	case famNamed:
+		// texts whose meaning for the type differs from strconv's reading of the same text
+		switch c08NamedIdx(E) {
+		case 0: // hex, 32 bits
+			l := []string{"10", "20", "ff", "7fffffff", "-80000000", "1f", "0", "a", "11", "100", "-10", "+7f"}
+			if r.Intn(3) == 0 {
+				return fmt.Sprintf("%x", r.Int31())
+			}
+			return l[r.Intn(len(l))]
+		case 1: // percent
+			return fmt.Sprint(r.Intn(101))
+		case 2:
+			return []string{"on", "off"}[r.Intn(2)]
+		case 3:
+			return []string{"abc", "x", "Hello", "ünï", "a b", "10"}[r.Intn(6)]
+		default:
+			return fmt.Sprintf("%d/%d", r.Intn(200)-100, 1+r.Intn(16))
+		}
 	}
 	l := []string{"abc", "x", "0", "hello world", "a b", "ünï", "!bang"}
 	return l[r.Intn(len(l))]
@@ -252,6 +270,21 @@ func c08ValidFor(r *rand.Rand, fam int, E reflect.Type) string {
 // c08Adversarial: boundary of some width, look-alike, or a mutated valid text
 func c08Adversarial(r *rand.Rand, fam int, E reflect.Type) string {
 	c08InitPool()
+	if fam == famNamed && r.Intn(2) == 0 {
+		// valid for the KIND (strconv would take it) but not for the type, and the other way round
+		switch c08NamedIdx(E) {
+		case 0:
+			return []string{"80000000", "-80000001", "1g", "0x10", "", "100000000", "2147483648", "ffffffff"}[r.Intn(8)]
+		case 1:
+			return []string{"101", "250", "255", "256", "-1", "", "1e2", "0100"}[r.Intn(8)]
+		case 2:
+			return []string{"true", "false", "1", "0", "t", "ON", "", "yes"}[r.Intn(8)]
+		case 3:
+			return []string{"!x", "!", ""}[r.Intn(3)]
+		default:
+			return []string{"1.5", "0.25", "1/0", "1/", "/2", "3", "", "1e3", "NaN"}[r.Intn(9)]
+		}
+	}
 	switch r.Intn(5) {
 	case 0, 1:
 		return c08Pool[r.Intn(len(c08Pool))]
@@ -459,6 +492,9 @@ func c08RandCustom(r *rand.Rand, pBad int) *c08Custom {
 
 func c08GenChain(r *rand.Rand) *c08Case {
 	c := &c08Case{Kind: "vb", FailFast: r.Intn(10) < 6, Binder: []string{"", "", "form", "path", "multipart"}[r.Intn(5)]}
+	if r.Intn(5) < 2 { // the binder as its constructor returns it: no FailFast call before the first op
+		c.Default, c.FailFast = true, false
+	}
 	n := 2 + r.Intn(5)
 	pBad := []int{5, 25, 50}[r.Intn(3)]
 	for i := 0; i < n; i++ {
@@ -546,7 +582,11 @@ func c08Probe(r *rand.Rand) []any {
 		} else {
 			cl.Values = []string{s}
 		}
-		out = append(out, &c08Case{Kind: "vb", FailFast: r.Intn(2) == 0, Ops: []c08Op{{Kind: "call", Call: cl}, {Kind: "binderrors"}}})
+		pc := &c08Case{Kind: "vb", FailFast: r.Intn(2) == 0, Ops: []c08Op{{Kind: "call", Call: cl}, {Kind: "binderrors"}}}
+		if r.Intn(3) == 0 {
+			pc.Default, pc.FailFast, pc.Binder = true, false, []string{"", "form", "path", "multipart"}[r.Intn(4)]
+		}
+		out = append(out, pc)
 	}
 	for _, mi := range c08Methods() {
 		for _, s := range c08Pool {
@@ -582,6 +622,33 @@ func c08Probe(r *rand.Rand) []any {
 					ops = append([]c08Op{{Kind: "call", Call: bad}}, ops...)
 				}
 				out = append(out, &c08Case{Kind: "vb", FailFast: r.Intn(2) == 0, Binder: []string{"", "form", "path"}[r.Intn(3)], Ops: ops})
+			}
+		}
+	}
+	// every constructor as it comes (no FailFast call): a failing field, then fields that would bind
+	for _, binder := range []string{"", "path", "form", "multipart"} {
+		for _, first := range []*c08Call{bad, {Method: "MustInt", Values: nil, Init: []string{"7"}}, {Method: "Float32s", Values: []string{"1.5", "x"}, InitNil: true},
+			{Method: "Duration", Values: []string{"1x"}, Init: []string{"5"}}, {Method: "MustBool", Values: []string{"yes"}, Init: []string{"false"}}} {
+			for variant := 0; variant < 4; variant++ {
+				later := []c08Op{
+					{Kind: "call", Call: &c08Call{Method: "Int64", Values: []string{"42"}, Init: []string{"7"}}},
+					{Kind: "call", Call: &c08Call{Method: "Uint8s", Values: []string{"1", "2"}, InitNil: true}},
+					{Kind: "call", Call: &c08Call{Method: "Bool", Values: []string{"true"}, Init: []string{"false"}}},
+					{Kind: "call", Call: &c08Call{Method: "BindWithDelimiter", Elem: "[]int16", Values: []string{"1,2"}, Delim: ",", InitNil: true}},
+					{Kind: "custom", Custom: &c08Custom{Values: []string{"a"}, InitNil: true}},
+					{Kind: "call", Call: &c08Call{Method: "Int8", Values: []string{"300"}, Init: []string{"7"}}},
+				}
+				ops := append([]c08Op{{Kind: "call", Call: first}}, later[variant:]...)
+				switch variant {
+				case 1:
+					ops = append(ops, c08Op{Kind: "binderrors"})
+				case 2: // after the reset the binder must still be fail-fast
+					ops = append(ops, c08Op{Kind: "binderror"}, c08Op{Kind: "call", Call: bad}, later[0], c08Op{Kind: "binderrors"})
+				case 3: // an explicit FailFast(false) later switches it off
+					ops = append([]c08Op{{Kind: "call", Call: first}, {Kind: "failfast", Flag: false}}, later...)
+					ops = append(ops, c08Op{Kind: "binderrors"})
+				}
+				out = append(out, &c08Case{Kind: "vb", Default: true, Binder: binder, Ops: ops})
 			}
 		}
 	}
@@ -774,6 +841,11 @@ func c08Shrink(ci any) []any {
 			d.Ops = append(append([]c08Op(nil), c.Ops[:i]...), c.Ops[i+1:]...)
 			out = append(out, &d)
 		}
+	}
+	if c.Binder != "" && c.Binder != "path" && !c.Default {
+		d := *c
+		d.Binder = ""
+		out = append(out, &d)
 	}
 	for i, op := range c.Ops {
 		if op.Kind == "custom" && op.Custom != nil {
